@@ -67,12 +67,14 @@ def main():
                     rc, o = sh([os.path.join(core.VERIF_DIR, 'check'), p, '--tier', a.tier, '--seed', s, '--no-evidence'],
                                cwd=core.VERIF_DIR, env=cenv, timeout=7200)
                     keys = [l.strip() for l in o.splitlines() if l.strip().startswith('key=')]
-                    out['ran'][f'{p}@{a.tier}/seed{s}'] = {'exit': rc, 'keys': [k[:200] for k in keys][:8],
+                    out['ran'][f'{p}@{a.tier}/seed{s}'] = {'exit': rc, 'violation_line': 'VIOLATION property=' + p in o,
+                                                         'keys': [k[:200] for k in keys][:8],
                                                          'tail': o.strip().splitlines()[-1][:200] if o.strip() else ''}
     finally:
         sh(['git', '-C', '/repo', 'worktree', 'remove', '--force', wt])
         shutil.rmtree(tmp, ignore_errors=True)
-    detected = [k for k, v in out['ran'].items() if v['exit'] == 1]
+    # detected = the check reported a violation (exit 1 AND a VIOLATION line): a crashed check does not count
+    detected = [k for k, v in out['ran'].items() if v['exit'] == 1 and v.get('violation_line')]
     out['detected_by'] = detected
     out['valid_seed'] = bool(out.get('demo_clean_exit') == 0 and out.get('patch_applies') and out.get('tests_pass_with_change')
                              and out.get('demo_changed_exit', 0) != 0)
